@@ -460,6 +460,7 @@ theorem TI_step (op : Op) (h : TI c) : TI (step c op) := by
   | setSched l d => exact h.2
   | tick ms => exact h.2
   | setSmCallback => exact h.2
+  | setSendOnConnect on => exact h.2
   | setFlags f => exact Tk_setFlags h.2
   | usend it => exact Tk_xmppSend h.2
   | uraw it => exact Tk_xmppSendRaw h.2
